@@ -478,7 +478,7 @@ func (c *SCIONClient) measureClockOffsetSCION(ctx context.Context, mtrcs *scionC
 				}
 			}
 			if authKey != nil {
-				authOpt, err := e2eLayer.FindOption(slayers.OptTypeAuthenticator)
+				authOpt, err := scion.FindPacketAuthOpt(&e2eLayer, scion.PacketAuthSPIServer, scion.PacketAuthAlgorithm)
 				if err == nil && len(authOpt.OptData) != scion.PacketAuthOptDataLen {
 					err = errInvalidPacketAuthenticator
 					if numRetries != maxNumRetries && deadlineIsSet && timebase.Now().Before(deadline) {
